@@ -329,12 +329,14 @@ def canonicalName (s : Bytes) : Bytes := foldName s
 after the first unescaped dot that is not the final byte. -/
 def dropLabel : Bytes → Bool → Option Bytes
   | [], _ => none
-  | [_], _ => none
-  | b :: t@(_ :: _), esc =>
-    if esc then dropLabel t false
-    else if b == 0x5C then dropLabel t true
-    else if b == 0x2E then some t
-    else dropLabel t false
+  | b :: t, esc =>
+    match t with
+    | [] => none
+    | _ :: _ =>
+      if esc then dropLabel t false
+      else if b == 0x5C then dropLabel t true
+      else if b == 0x2E then some t
+      else dropLabel t false
 
 /-- names `walkFailureZones` visits: the name, every parent, then the root. -/
 def failureZones : Nat → Bytes → List Bytes
